@@ -117,6 +117,46 @@ def free_vars(e, acc=None, seen=None):
     return acc
 
 
+
+def _innermost_toint(exprs):
+    """Distinct ToInt applications whose argument contains no further ToInt."""
+    found, seen = {}, {}
+
+    def has_toint(t):
+        i = t.get_id()
+        r = seen.get(i)
+        if r is not None:
+            return r
+        r = False
+        if z3.is_app(t):
+            if t.decl().kind() == z3.Z3_OP_TO_INT:
+                r = True
+            for c in t.children():
+                if has_toint(c):
+                    r = True
+        seen[i] = r
+        return r
+
+    def walk(t, visited):
+        i = t.get_id()
+        if i in visited:
+            return
+        visited.add(i)
+        if not seen.get(i, has_toint(t)):
+            return
+        if z3.is_app(t) and t.decl().kind() == z3.Z3_OP_TO_INT:
+            if not has_toint(t.arg(0)):
+                found[i] = t
+                return
+        for c in t.children():
+            walk(c, visited)
+    vis = set()
+    for e in exprs:
+        has_toint(e)
+        walk(e, vis)
+    return list(found.values())
+
+
 # ----------------------------------------------------------------------------------------------------------------
 # proxies
 # ----------------------------------------------------------------------------------------------------------------
@@ -487,7 +527,7 @@ class SymCtx(BaseCtx):
         self.assumptions = []    # z3 preconditions
         self.vars = {}           # name -> (z3 const, spec)
         self.solver = z3.Solver()
-        self.solver.set("timeout", solver_timeout_ms)
+        self.solver.set("timeout", min(6000, solver_timeout_ms))
         self.solver.set("random_seed", seed % (2 ** 30))
         self.model = None
         self.stats = stats
@@ -496,7 +536,11 @@ class SymCtx(BaseCtx):
         self.timeout_ms = solver_timeout_ms
         self.decision_hook = None
         self.candidates = []     # (label, model inputs) solver found a counterexample
-        self.structural_failures = []
+        self.assume_nonzero_divisors = True   # C02 switches this off and proves the divisors non-zero instead
+        self._div_seen = set()
+        self.quick_ms = 3000
+        self.rewrites = []
+        self._rewrite_ids = set()
 
     # -- inputs --------------------------------------------------------------------------------------------------
     def var(self, name, lo=None, hi=None, lo_strict=False, hi_strict=False, integer=False, nice=None):
@@ -544,6 +588,9 @@ class SymCtx(BaseCtx):
         if extra is not None:
             self.solver.pop()
         self.stats["solver_s"] += time.time() - t0
+        if r == "unknown":
+            self.stats["incremental_unknown"] = self.stats.get("incremental_unknown", 0) + 1
+            r, m = self._fresh_check([extra] if extra is not None else [], self.timeout_ms)
         return r, m
 
     def _ensure_model(self):
@@ -639,7 +686,14 @@ class SymCtx(BaseCtx):
         return v
 
     def note_divisor(self, dz):
+        if z3.is_rational_value(dz) or z3.is_int_value(dz):
+            return
         self.divisors.append(dz)
+        if self.assume_nonzero_divisors:
+            i = dz.get_id()
+            if i not in self._div_seen:
+                self._div_seen.add(i)
+                self.assume_z3(dz != 0)
 
     # -- obligations ---------------------------------------------------------------------------------------------
     def _decide_obligation(self, label, neg, kind="solver"):
@@ -651,7 +705,22 @@ class SymCtx(BaseCtx):
             self.stats["syntactic"] += 1
             self.obligations.append(Obligation(label, "syntactic", None, 0.0, kind))
             return True
-        r, m = self._check(s)
+        if self.rewrites:
+            s2 = z3.simplify(self._apply_rewrites(neg))
+            if z3.is_false(s2):
+                self.stats["syntactic"] += 1
+                self.stats["discharged_by_rewriting"] = self.stats.get("discharged_by_rewriting", 0) + 1
+                self.obligations.append(Obligation(label, "syntactic", None, time.time() - t0, kind))
+                return True
+            s = s2
+        r, m = self._fresh_check([s], min(self.quick_ms, self.timeout_ms))
+        if r == "unknown":
+            r2 = self._retry_toint_unified(s)
+            if r2 == "unsat":
+                r = "unsat"
+                self.stats["unsat_after_toint_unification"] = self.stats.get("unsat_after_toint_unification", 0) + 1
+            else:
+                r, m = self._fresh_check([s], self.timeout_ms)
         dt = time.time() - t0
         if r == "unsat":
             self.stats["unsat"] += 1
@@ -667,7 +736,89 @@ class SymCtx(BaseCtx):
         self.obligations.append(Obligation(label, "unknown", str(s)[:200], dt, kind))
         return None
 
-    def eq(self, a, b, label):
+    def _fresh_check(self, extras, timeout_ms):
+        """Non-incremental query (lets z3 choose its nlsat-based strategy for pure real arithmetic)."""
+        sv = z3.Solver()
+        sv.set("timeout", int(timeout_ms))
+        for a in self.assumptions:
+            sv.add(a)
+        for l in self.lits:
+            sv.add(l)
+        for e in extras:
+            sv.add(e)
+        self.stats["queries"] += 1
+        t0 = time.time()
+        r = str(sv.check())
+        m = sv.model() if r == "sat" else None
+        self.stats["solver_s"] += time.time() - t0
+        return r, m
+
+    def _retry_toint_unified(self, neg):
+        """Fallback for `unknown`: every ToInt(arg) is replaced by an integer variable k with k <= arg < k+1
+        (equivalent), after merging ToInt terms whose arguments are provably equal under the preconditions.  The
+        merged formula is usually decided by rewriting alone.  Only an `unsat` answer is used."""
+        exprs = list(self.assumptions) + list(self.lits) + [neg]
+        axioms = []
+        eqs = z3.Solver()
+        eqs.set("timeout", 2000)
+        for a in self.assumptions:
+            eqs.add(a)
+        nfresh = 0
+        budget = 400
+        for _round in range(6):
+            terms = _innermost_toint(exprs)
+            if not terms:
+                break
+            reps = []
+            pairs = []
+            for t in terms:
+                arg = t.arg(0)
+                target = None
+                for (rarg, rk) in reps:
+                    d = z3.simplify(arg - rarg)
+                    if z3.is_rational_value(d) or z3.is_int_value(d):
+                        if frac_of(d) == 0:
+                            target = rk
+                            break
+                        continue
+                    if budget <= 0:
+                        continue
+                    budget -= 1
+                    self.stats["queries"] += 1
+                    t0 = time.time()
+                    eqs.push()
+                    eqs.add(arg != rarg)
+                    r = str(eqs.check())
+                    eqs.pop()
+                    self.stats["solver_s"] += time.time() - t0
+                    if r == "unsat":
+                        target = rk
+                        break
+                if target is None:
+                    nfresh += 1
+                    target = z3.Int(f"__k{_round}_{nfresh}")
+                    reps.append((arg, target))
+                    axioms.append(z3.And(z3.ToReal(target) <= arg, arg < z3.ToReal(target) + 1))
+                pairs.append((t, target))
+            exprs = [z3.substitute(e, *pairs) for e in exprs]
+            axioms = [z3.substitute(e, *pairs) for e in axioms]
+        s2 = z3.Solver()
+        s2.set("timeout", self.timeout_ms)
+        goal = z3.simplify(exprs[-1])
+        if z3.is_false(goal):
+            return "unsat"
+        for e in exprs[:-1] + axioms:
+            s2.add(e)
+        s2.add(goal)
+        self.stats["queries"] += 1
+        t0 = time.time()
+        r = str(s2.check())
+        self.stats["solver_s"] += time.time() - t0
+        return r
+
+    def eq(self, a, b, label, learn=True):
+        """a == b under the path condition.  A proven equality is remembered as a rewrite b -> a (valid on this path)
+        and applied to later obligations, so that downstream values are compared modulo upstream ones."""
         az, bz = to_z3(a), to_z3(b)
         if az is None or bz is None:
             raise EngineError(f"eq on non numeric {type(a)} {type(b)}")
@@ -676,7 +827,42 @@ class SymCtx(BaseCtx):
             self.stats["syntactic"] += 1
             self.obligations.append(Obligation(label, "syntactic"))
             return True
-        return self._decide_obligation(label, az != bz)
+        r = self._decide_obligation(label, az != bz)
+        if r and learn:
+            self._learn(az, bz)
+        return r
+
+    def _learn(self, az, bz):
+        def num(t):
+            return z3.is_rational_value(t) or z3.is_int_value(t)
+        pairs = [(az, bz)]
+        if (z3.is_app(az) and z3.is_app(bz) and az.decl().kind() == z3.Z3_OP_MUL and bz.decl().kind() == z3.Z3_OP_MUL
+                and az.num_args() == 2 and bz.num_args() == 2):
+            for i, j in ((0, 1), (1, 0)):
+                if num(az.arg(i)) and num(bz.arg(i)) and az.arg(i).eq(bz.arg(i)) and not frac_of(az.arg(i)) == 0:
+                    pairs.append((az.arg(j), bz.arg(j)))
+        for (x, y) in pairs:
+            if num(y) or x.eq(y):
+                continue
+            if z3.is_const(y) and y.decl().kind() == z3.Z3_OP_UNINTERPRETED:
+                continue  # never rewrite an input variable
+            i = y.get_id()
+            if i in self._rewrite_ids:
+                continue
+            if self.rewrites:
+                x = z3.substitute(x, *self.rewrites)
+            self._rewrite_ids.add(i)
+            self.rewrites.append((y, x))
+
+    def _apply_rewrites(self, e):
+        if not self.rewrites:
+            return e
+        for _ in range(3):
+            e2 = z3.substitute(e, *self.rewrites)
+            if e2.eq(e):
+                break
+            e = e2
+        return e
 
     def le(self, a, b, label):
         return self._decide_obligation(label, to_z3(a) > to_z3(b))
@@ -696,15 +882,22 @@ class SymCtx(BaseCtx):
         c = cond.e if isinstance(cond, SymBool) else cond
         return self._decide_obligation(label, c)
 
-    def require(self, ok, label, detail=None):
-        """A concrete (non-arithmetic) obligation evaluated on this path; a failure is a candidate to replay."""
+    def require(self, ok, label, detail=None, robust=False):
+        """A concrete (non-arithmetic) obligation evaluated on this path; a failure is a candidate to replay.
+        robust=True: the failure only counts if the path has a model strictly inside its branch conditions
+        (otherwise it exists only on a branch boundary, where float rounding decides: outside every claim)."""
         self.stats["obligations"] += 1
         if ok:
             self.stats["concrete_ok"] += 1
             self.obligations.append(Obligation(label, "ok", None, 0.0, "concrete"))
             return True
+        inputs = self.nice_model(None, margin_only=robust)
+        if inputs is None and robust:
+            self.stats["boundary_only"] = self.stats.get("boundary_only", 0) + 1
+            self.obligations.append(Obligation(label, "boundary-only", detail, 0.0, "concrete"))
+            return True
         self.stats["concrete_fail"] += 1
-        inputs = self.nice_model(None) or self.model_inputs(self._ensure_model())
+        inputs = inputs or self.model_inputs(self._ensure_model())
         self.candidates.append((label, inputs))
         self.obligations.append(Obligation(label, "fail", detail, 0.0, "concrete"))
         return False
@@ -727,7 +920,7 @@ class SymCtx(BaseCtx):
             out.append(_strengthen(lit, eps))
         return out
 
-    def nice_model(self, extra, want_margin=True):
+    def nice_model(self, extra, want_margin=True, margin_only=False):
         """A model of PC (∧ extra) inside the variables' nice boxes and away from branch boundaries, if one exists."""
         s = z3.Solver()
         s.set("timeout", min(self.timeout_ms, 10000))
@@ -745,7 +938,8 @@ class SymCtx(BaseCtx):
             ml = self._margin_lits(Fraction(1, 1000))
             attempts.append(ml + nice)
             attempts.append(ml)
-        attempts.append(list(self.lits) + nice)
+        if not margin_only:
+            attempts.append(list(self.lits) + nice)
         for att in attempts:
             self.stats["queries"] += 1
             t0 = time.time()
@@ -855,7 +1049,7 @@ class ConcCtx(BaseCtx):
     def unreachable(self, cond, label):
         return self.require(not bool(cond), label)
 
-    def require(self, ok, label, detail=None):
+    def require(self, ok, label, detail=None, robust=False):
         self.obligations.append((label, bool(ok)))
         if not ok:
             self.failures.append((label, detail or "concrete obligation failed"))
